@@ -280,6 +280,24 @@ static RunResult qr_execute(const Plan &plan)
 		{
 			if (cards.empty()) continue;
 			const CardRec &cr = cards[(size_t)op.arg(0) % cards.size()];
+			// C11: a card resets on import - re-import the exported text into a *used* card of another shape
+			{
+				size_t k2 = 1 + (size_t)(op.arg(0) * 7 + oi) % 6, w2 = 1 + (size_t)(op.arg(0) * 13 + oi * 5) % 8;
+				TMCG_Card used(k2, w2);
+				for (size_t a = 0; a < used.z.size(); a++) for (size_t b = 0; b < used.z[a].size(); b++) mpz_set_ui(&used.z[a][b], 1000 + a * 10 + b);
+				std::ostringstream o1; o1 << cr.c; std::istringstream in(o1.str() + "\n"); in >> used;
+				std::ostringstream o2; o2 << used; res.cnt["probe.roundtrips_into_used"]++;
+				if (!in.good() && !in.eof()) violate("C11", "import_refused_card_into_used", "re-import of an exported " + std::to_string(k) + "x" + std::to_string(w) + " card into a used " + std::to_string(k2) + "x" + std::to_string(w2) + " card failed");
+				else if (o1.str() != o2.str() || !(used == cr.c)) violate("C11", "roundtrip_card_into_used", "card imported into a used " + std::to_string(k2) + "x" + std::to_string(w2) + " card differs from the exported one");
+				if (res.ok())
+				{
+					TMCG_CardSecret cs0(k, w), csu(k2, w2); S.single_party = 0; tmcg.TMCG_CreateCardSecret(cs0, ring, 0);
+					std::ostringstream s1; s1 << cs0; std::istringstream in2(s1.str() + "\n"); in2 >> csu; std::ostringstream s2; s2 << csu;
+					if (!in2.good() && !in2.eof()) violate("C11", "import_refused_cardsecret_into_used", "re-import of an exported card secret into a used " + std::to_string(k2) + "x" + std::to_string(w2) + " card secret failed");
+					else if (s1.str() != s2.str()) violate("C11", "roundtrip_cardsecret_into_used", "card secret imported into a used object differs from the exported one");
+				}
+				if (!res.ok()) break;
+			}
 			size_t t = open(cr.c); res.cnt["probe.cards_opened"]++;
 			if (t != cr.type) violate("C01", "wrong_type_opened", "card created with type " + std::to_string(cr.type) + " and masked " + std::to_string(cr.masked) + " times opens to " + std::to_string(t));
 		}
